@@ -324,6 +324,22 @@ def evaluate(sql):
         return ("err", str(e))
 
 
+def _same_values(ra, rb):
+    """row lists equal; floats with a relative tolerance (re-association inside a +/- or * chain may round differently)"""
+    if len(ra) != len(rb):
+        return False
+    for (x,), (y,) in zip(ra, rb):
+        if isinstance(x, float) or isinstance(y, float):
+            if x is None or y is None:
+                if x is not y:
+                    return False
+            elif abs(x - y) > 1e-9 * max(1.0, abs(x), abs(y)):
+                return False
+        elif x != y:
+            return False
+    return True
+
+
 # ---- the check ----------------------------------------------------------------------------------------------------
 
 
@@ -354,7 +370,7 @@ def fails(node, ctxname):
                 b = evaluate(sql)
                 if b[0] == "err":
                     return "engine_reject", "%r: %s (reference %r evaluates)" % (sql, b[1], ref)
-                if a[1] != b[1]:
+                if not _same_values(a[1], b[1]):
                     return "value", "%r evaluates differently from %r" % (sql, ref)
     return None
 
@@ -440,7 +456,7 @@ def family(node):
     if g is None:
         return None
     bad = [kind_of(ch) for _, ch in children(node) if kind_of(ch) != "col"]
-    if bad and all(b in CRIT_CHILD for b in bad):
+    if bad and any(b in CRIT_CHILD for b in bad):
         return mksig("crit_operand", g)
     return None
 
@@ -571,6 +587,22 @@ def triples():
                 yield parent, pos, child
 
 
+def run_fuzz_shard(shard):
+    """coverage-guided layer (Atheris): bytes -> structured case, the same oracle inside the target"""
+    from pbt import fuzz
+
+    _, tier, sd, k = shard
+    col = Collector()
+    seeds = [] if k % 2 == 0 else [bytes(range(1, 65)), b"\x02" * 40, b"\x07\x01\x09" * 20]
+    found, runs, note = fuzz.campaign("c06", 30000, sd, seeds)
+    col.evaluations += runs
+    col.count("atheris_executions", runs)
+    col.notes["atheris"] = [note + (" (empty corpus)" if not seeds else " (seeded corpus)")]
+    for f in found:
+        col.violation(f["sig"], f["case"], f["detail"])
+    return col
+
+
 def shards(tier, sd):
     out = [("triples", tier, sd, c) for c in CTXS]
     n = 6 if tier == "quick" else 32
@@ -579,10 +611,14 @@ def shards(tier, sd):
     # depth-3 layer (parent(child(grandchild)) over the arithmetic / boolean operators and negative literals): cheap, so it runs in both tiers
     for k in range(16):
         out.append(("depth3", tier, sd, k))
+    if tier == "thorough":
+        out += [("fuzz", tier, sd * 1000 + 500 + k, k) for k in range(4)]
     return out
 
 
 def run_shard(shard):
+    if shard[0] == "fuzz":
+        return run_fuzz_shard(shard)
     kind, tier, sd, arg = shard
     col = Collector()
     if kind == "triples":
